@@ -21,6 +21,7 @@ import M4riProofs.GenTieStrassen
 import M4riProofs.GenTieStrassen2
 import M4riProofs.GenTieClose3
 import M4riProofs.GenTieMul
+import M4riProofs.GenTieVa
 namespace M4ri.Props.C01
 open M4ri M4ri.BMat
 
@@ -164,3 +165,10 @@ theorem routes_agree (fuel cutoff k auto ntables thin thin' : Nat) (junk : Nat â
 #check @M4ri.GenTieMul.mzdAddmul_early
 
 end M4ri.Props.C01
+
+/-! ### `_mzd_mul_va` ON THE C TEXT (GenTieVa.lean): the complete generated function (optional clearing through the generated `mzd_set_ui`, one
+    generated `mzd_combine` â€” with its `C == A` in-place dispatch â€” per set bit of `v`) equals the model `mulVaW` as memories, hence every stored
+    entry of the destination is `vÂ·A` resp. `C + vÂ·A`, excess bits unchanged -/
+#check @M4ri.GenTieVa.mzdMulVa_eq
+#check @M4ri.GenTieVa.mzdMulVa_spec
+#check @M4ri.GenTieVa.mzdMulVa_eq_putB
